@@ -19,6 +19,7 @@ const (
 	mForced = "forced-settle-stale-validator" // F-C07a
 	mRefund = "gas-refund-minted"             // F-C07c
 	mDelete = "removed-validator-residue"     // F-C07d
+	mNegRec = "unencodable-pending-record"    // F-C07e
 )
 
 type finding struct {
@@ -288,7 +289,16 @@ func checkRun(rr *runResult, drv *vh.Driver) []finding {
 			forcedOK := b.periodEnd && len(forcedCandidates(prev, b.num, w.yp)) > 0
 			delBound := removedStake(prev, b.led)
 			matchers := []string{}
-			if !unexplainedShort {
+			if !unexplainedShort && strings.Contains(b.stateErr, "cannot encode negative") && b.dropped != nil && b.dropped.Sign() > 0 &&
+				new(big.Int).Neg(b.dropped).Cmp(new(big.Int).Sub(delta, explainedMint)) == 0 {
+				// F-C07e: the builder's StateDB recorded the RLP error of a negative staking record, and the change is exactly the
+				// value detained by this block's successful create/deposit/delegation-add transactions whose hash reached no
+				// persisted pending record
+				matchers = append(matchers, mNegRec)
+				if explainedMint.Sign() > 0 {
+					matchers = append(matchers, mRefund)
+				}
+			} else if !unexplainedShort {
 				if modelKnows {
 					exp := new(big.Int).Sub(new(big.Int).Sub(explainedMint, modelLost), modelLostDel)
 					okF := modelLost.Sign() == 0 || (forcedOK && forcedBound(prev, b, new(big.Int).Neg(modelLost)))
